@@ -76,14 +76,14 @@ func opSubject(op string) string {
 // caseT is one explored case (also the replay artefact).
 type caseT struct {
 	Start string   `json:"start,omitempty"` // "" = empty database | pre = subject A exists and has a service
-	Nuts  string   `json:"nuts"`           // scripted | real
-	Seq   []string `json:"seq"`            // operation sequence
-	At    int      `json:"at"`             // index of the operation that is cut
-	Step  int      `json:"step"`           // step number inside that operation (numbering of the fault-free twin)
-	Ext   string   `json:"ext,omitempty"`  // cut at this named non-SQL step instead (e.g. "nuts.Commit")
-	Mode  string   `json:"mode"`           // error | stop | race
-	Race  string   `json:"race,omitempty"` // mode race: boundary at which an un-aged sweep runs inside the operation
-	Sweep string   `json:"sweep"`          // plain | iserr (first aged sweep gets an IsCommitted error from did:nuts)
+	Nuts  string   `json:"nuts"`            // scripted | real
+	Seq   []string `json:"seq"`             // operation sequence
+	At    int      `json:"at"`              // index of the operation that is cut
+	Step  int      `json:"step"`            // step number inside that operation (numbering of the fault-free twin)
+	Ext   string   `json:"ext,omitempty"`   // cut at this named non-SQL step instead (e.g. "nuts.Commit")
+	Mode  string   `json:"mode"`            // error | stop | race
+	Race  string   `json:"race,omitempty"`  // mode race: boundary at which an un-aged sweep runs inside the operation
+	Sweep string   `json:"sweep"`           // plain | iserr (first aged sweep gets an IsCommitted error from did:nuts)
 	Label string   `json:"label,omitempty"`
 }
 
@@ -99,21 +99,21 @@ type network struct {
 var errPublish = errors.New("verif: environment refuses IsCommitted")
 
 type world struct {
-	t      testing.TB
+	t       testing.TB
 	commits []string // documents handed to successful method Commits during the running operation
-	kind   string
-	se     storage.Engine
-	db     *gorm.DB
-	sqldb  *sql.DB
-	pool   *fault.Pool
-	ks     *nutsCrypto.Crypto
-	store  didstore.Store
-	net    *network
-	mgr    *didsubject.SqlManager
-	hook   func(label string)
-	asked  []string // IsCommitted calls of the running sweep, in order
-	ctx    context.Context
-	sweeps int
+	kind    string
+	se      storage.Engine
+	db      *gorm.DB
+	sqldb   *sql.DB
+	pool    *fault.Pool
+	ks      *nutsCrypto.Crypto
+	store   didstore.Store
+	net     *network
+	mgr     *didsubject.SqlManager
+	hook    func(label string)
+	asked   []string // IsCommitted calls of the running sweep, in order
+	ctx     context.Context
+	sweeps  int
 }
 
 // method is the wrapper around a MethodManager that makes Commit a numbered cut point.
